@@ -40,6 +40,9 @@ CLAIMS = {
  'C12': ('4.12', 'bounded-write idioms + path-weight length bound + first-store analysis + run-counter reset must-pass-through',
          'Output writes bounded, longest text < documented size, text cannot start with a colon, zero-run counter reset on every non-zero group.  Round-trip equality over 2^128 values is NOT decided.',
          'partial: value-level round trip is out of reach of static analysis'),
+ 'C13': ('4.13', 'relational numeric abstract interpretation (octagons with threshold widening, unsigned wrap-around honoured) of the address parser, its helper and the mask test + index-cursor typestate over the NUL-terminated input with helper summaries',
+         'Memory clause only: every subscript of the 8-group array, the embedded IPv4 copy, every shift count and every read/advance of the input cursor in irc_pton, irc_pton_ip4 and irc_check_mask is proven in range.  Exactness of the mask test, prefix lengths / network bits of CIDR and wildcard forms and agreement with inet_pton are NOT decided (values).',
+         'partial: one clause of the statement; the value clauses are out of reach of static analysis'),
  'C14': ('4.14', 'phase separation by reference sets over the definite call graph + must-pass-through + ownership moves',
          'Parse phase never references the live tree and cannot deliver a hook; merge only after the parse loop; no non-local exit from the merge; scratch tree freed on every path; moved pointers nulled.',
          'termination and leaks on error exits are not decided'),
@@ -63,7 +66,6 @@ CLAIMS = {
          'partial'),
 }
 NA = {
- 'C13': 'the statement quantifies over values (prefix equality for all address/mask/length triples, parsed prefix lengths, agreement with the standard parser); the only shape clause (in-bounds writes in irc_pton) needs the relational invariant cpos <= ii <= 8, which no analysis available here establishes (goto-analyzer leaves it UNKNOWN) - see DESIGN.md section 6',
 }
 props = [json.loads(l)['id'] for l in open(os.path.join(V, 'properties.jsonl'))]
 checks, na = [], []
